@@ -9,11 +9,23 @@ mod server_drv;
 mod unicode_drv;
 mod gen_schema;
 mod link_drv;
+mod router_drv;
 
 use std::io::Write;
 
 fn main() {
   let args: Vec<String> = std::env::args().collect();
+  if args.len() == 3 && args[1] == "boot" {
+    // the real entry point: narwhal_server::run with a configuration file (TLS listener, worker pool, signal handling);
+    // runs until SIGTERM
+    let rt = tokio::runtime::Builder::new_multi_thread().worker_threads(2).enable_all().build().unwrap();
+    let r = rt.block_on(narwhal_server::run(Some(args[2].clone()), 2));
+    if let Err(e) = r {
+      eprintln!("boot: {e}");
+      std::process::exit(1);
+    }
+    return;
+  }
   if args.len() < 4 {
     eprintln!("usage: nwv <driver> <cases.json> <out.json>");
     std::process::exit(2);
@@ -36,6 +48,7 @@ fn main() {
     "pool" => pool_drv::run(&cases),
     "client" => client_drv::run(&cases),
     "link" => link_drv::run(&cases),
+    "router" => router_drv::run(&cases),
     "s2mclient" => link_drv::run_client(&cases),
     other => {
       eprintln!("unknown driver {other}");
